@@ -873,6 +873,15 @@ func (s *PebbleScanner) MigrateFromJSON(jsonPath string) (int, error) {
 			if err != nil {
 				return processed, err
 			}
+			// The value must be an array (or null, which is how an empty database is written):
+			// `"signatures": {}` or `"signatures": "x"` would otherwise be walked as if it were one
+			// and reported as a successful migration of nothing.
+			if t == nil {
+				continue
+			}
+			if d, isDelim := t.(json.Delim); !isDelim || d != '[' {
+				return processed, fmt.Errorf("'signatures' is not an array")
+			}
 
 			batchSize := 1000
 			var batch []*detection.Signature
